@@ -69,6 +69,7 @@ var strAxioms = []struct{ trigger, text string }{
 	{"scat", `(assert (forall ((a Str) (b Str) (i Int)) (! (= (sat (scat a b) i) (ite (< i (slen a)) (sat a i) (sat b (- i (slen a))))) :pattern ((sat (scat a b) i)))))`},
 	{"scat", `(assert (forall ((a Str)) (! (and (= (scat a str_empty) a) (= (scat str_empty a) a)) :pattern ((scat a str_empty)) :pattern ((scat str_empty a)))))`},
 	{"scat", `(assert (forall ((a Str) (b Str) (c Str)) (! (= (scat (scat a b) c) (scat a (scat b c))) :pattern ((scat (scat a b) c)))))`},
+	{"scat", `(assert (forall ((s Str) (a Int) (b Int) (c Int)) (! (=> (and (<= 0 a) (<= a b) (<= b c) (<= c (slen s))) (= (scat (ssub s a b) (ssub s b c)) (ssub s a c))) :pattern ((scat (ssub s a b) (ssub s b c))))))`},
 	{"str_lt", `(assert (forall ((a Str)) (! (not (str_lt a a)) :pattern ((str_lt a a)))))`},
 	{"str_lt", `(assert (forall ((a Str) (b Str)) (! (=> (str_lt a b) (not (str_lt b a))) :pattern ((str_lt a b)))))`},
 	{"str_lt", `(assert (forall ((a Str) (b Str)) (! (or (str_lt a b) (str_lt b a) (= a b)) :pattern ((str_lt a b)))))`},
